@@ -48,8 +48,7 @@ def run(ctx):
     fq = ctx.fq(top)
     outs = ev.outcomes(top)
     rets = [o for o in outs if o.kind == "return"]
-    if len(rets) != 1:
-        raise AnalysisError(f"{fq}: expected one normal outcome, found {len(rets)}")
+    rets = generic.sole_outcome(ctx, rets, f"{fq}: expected one normal outcome, found {len(rets)}")
     o = rets[0]
     P = lambda n: Sym("param:" + n)
 
@@ -120,6 +119,12 @@ def run(ctx):
     R.check("C16-D1c record placement", wrt.args[0] == hexobj and wrt.args[1] == P("storage_output_file"), "output file",
             mod=top.module, node=wrt.node, function=fq, expected="write_hex_file(storage_output_file) on the record's hex object",
             found=repr(wrt)[:200])
+    from .c11 import _with_guards
+    guarded = [(e.args[0].op, g) for e, g in _with_guards(o.effects) if isinstance(e, App) and e.op == "eff:call" and isinstance(e.args[0], App)
+               and (e.args[0].op in ("meth:frombytes", "meth:write_hex_file") or e.args[0].op.endswith("bin2hex")) and g]
+    R.check("C16-D1c record placement", not guarded, "both files are written on every normal path (no condition skips a write)", mod=top.module,
+            node=fbt.node, function=fq, expected="unconditional frombytes / write_hex_file / bin2hex",
+            found=f"{[(op_, [repr(c)[:60] for c, _ in g]) for op_, g in guarded][:2]}")
     fresh = isinstance(hexobj, App) and hexobj.op.startswith("call:") and hexobj.op.endswith("IntelHex") and not any(
         not (isinstance(a_, Const) and isinstance(a_.v, tuple) and a_.v[:1] == ("site",)) and not (isinstance(a_, App) and a_.op == "tuple") for a_ in hexobj.args)
     R.check("C16-D1c record placement", fresh, "the record goes into an empty hex object created by this call", mod=top.module, node=fbt.node,
